@@ -446,6 +446,22 @@ Proof.
   - eapply view_tch_ok' with (v := v); eauto using incl_refl; lia.
 Qed.
 
+Lemma ctorfrom_ok : forall k sv, Forall (tok (allowed st (OCtorFrom k sv))) (snd (op_ctorfrom m st k sv)).
+Proof.
+  intros k sv. unfold op_ctorfrom, with_view, fail.
+  destruct (nth_error (views st) sv) as [src|] eqn:Hv; [|constructor].
+  pose proof (proj1 Inv sv src Hv) as Hok.
+  assert (Hl : 0 <= v_len src) by (destruct Hok as (_ & ? & _); assumption).
+  destruct (is_det st (v_buf src)) eqn:Hd; [constructor|].
+  destruct (negb _); [constructor|].
+  cbn [snd]. destruct (v_len src >? 0) eqn:Hn; [|constructor].
+  apply Forall_cons; [|apply Forall_cons; [|apply Forall_nil]].
+  - eapply view_tch_ok' with (v := sv); eauto; try lia. cbn [allowed]. apply incl_appl, incl_refl.
+  - unfold tok. eapply touch_ok_in with (b := length (bufs st)) (lo := 0) (hi := v_len src * esize k);
+      [|reflexivity|reflexivity|simpl; lia|simpl; lia].
+    cbn [allowed]. apply in_or_app. right. unfold new_region_k. rewrite Hv. left. reflexivity.
+Qed.
+
 Lemma jlen_le_mlen : forall s0 b, jlen s0 b <= mlen s0 b.
 Proof. intros. unfold jlen, mlen. destruct (getb s0 b) as [x|]; [|lia]. destruct (b_det x); unfold blen; lia. Qed.
 
@@ -512,6 +528,7 @@ Proof.
   - apply search_fwd_ok; auto. apply incl_refl.
   - apply search_fwd_ok; auto. apply incl_refl.
   - apply lastindexof_ok; auto.
+  - apply ctorfrom_ok; auto.
 Qed.
 
 (* the regions themselves lie inside the current memory of their buffer: "inside the view" implies
@@ -529,8 +546,12 @@ Proof.
   assert (Hn : forall v, In (b, lo, hi) (new_region st v) -> False).
   { intros v H. unfold new_region in H. destruct (nth_error (views st) v); [|contradiction].
     destruct H as [H|[]]. inversion H; subst. lia. }
+  assert (Hnk : forall k v, In (b, lo, hi) (new_region_k st k v) -> False).
+  { intros k v H. unfold new_region_k in H. destruct (nth_error (views st) v); [|contradiction].
+    destruct H as [H|[]]. inversion H; subst. lia. }
   destruct o; simpl in Hin; eauto; try contradiction.
   - apply in_app_or in Hin. destruct Hin; eauto.
   - apply in_app_or in Hin. destruct Hin as [H|H]; eauto. exfalso; eauto.
   - destruct Hin as [H|[H|[]]]; inversion H; subst; [split; lia|lia].
+  - apply in_app_or in Hin. destruct Hin as [H|H]; eauto. exfalso; eauto.
 Qed.
